@@ -24,12 +24,14 @@ pub struct Report {
     pub tier: String,
     pub seed: i64,
     pub t0: Instant,
+    known: Vec<Known>,
     inner: Mutex<Inner>,
 }
 
 #[derive(Default)]
 struct Inner {
     violations: Vec<Violation>,
+    known_hits: BTreeMap<usize, (Violation, u64)>,
     nviol: u64,
     counters: BTreeMap<String, u64>,
     samples: Vec<J>,
@@ -64,6 +66,7 @@ impl Report {
             tier: tier.to_string(),
             seed,
             t0: Instant::now(),
+            known: load_known(),
             inner: Mutex::new(Inner::default()),
         }
     }
@@ -73,6 +76,14 @@ impl Report {
     pub fn violation(&self, v: Violation) {
         let mut g = self.inner.lock().unwrap();
         g.nviol += 1;
+        // violations that belong to a listed known finding are only counted
+        // (first example kept), so that they can never crowd out an unlisted
+        // one from the bounded store
+        if let Some(i) = self.known.iter().position(|k| k.matches(&v)) {
+            let e = g.known_hits.entry(i).or_insert((v, 0));
+            e.1 += 1;
+            return;
+        }
         if g.violations.len() < 200 {
             g.violations.push(v);
         }
@@ -165,20 +176,11 @@ impl Report {
             coverage.put("machinery_errors", J::Arr(g.machinery.iter().map(|n| J::s(n.clone())).collect()));
         }
 
-        // classify violations against known findings
-        let known = load_known();
-        let mut real: Vec<&Violation> = vec![];
-        let mut known_hits: BTreeMap<usize, (&Violation, u64)> = BTreeMap::new();
-        let mut sorted: Vec<&Violation> = g.violations.iter().collect();
-        sorted.sort_by_key(|v| v.case.to_string().len());
-        for v in sorted {
-            match known.iter().position(|k| k.matches(v)) {
-                Some(i) => {
-                    known_hits.entry(i).or_insert((v, 0)).1 += 1;
-                }
-                None => real.push(v),
-            }
-        }
+        // violations of listed known findings were separated on arrival
+        let known = &self.known;
+        let known_hits = &g.known_hits;
+        let mut real: Vec<&Violation> = g.violations.iter().collect();
+        real.sort_by_key(|v| v.case.to_string().len());
         let ev = J::obj()
             .set("property_id", J::s(self.property.clone()))
             .set("tier", J::s(self.tier.clone()))
@@ -196,7 +198,7 @@ impl Report {
             eprintln!("cannot write evidence {}: {}", path, e);
             return 2;
         }
-        for (i, (v, n)) in &known_hits {
+        for (i, (v, n)) in known_hits.iter() {
             println!(
                 "KNOWN-FINDING: property={} {} ({} occurrence(s) in this run; e.g. {})",
                 v.property, known[*i].describe(), n, v.detail
